@@ -121,8 +121,8 @@ def norm_cmp(op, l, r):
     # canonical orientation: literal on the right; otherwise lexicographic for symmetric ops
     if is_lit(l) and not is_lit(r):
         op, l, r = FLIP[op], r, l
-    if op in ("==", "!=") and not is_lit(r) and r < l:
-        l, r = r, l
+    if not is_lit(r) and not is_lit(l) and r < l:
+        op, l, r = FLIP[op], r, l
     return (op, l, r)
 
 
